@@ -500,7 +500,7 @@ pub fn run(cx: &mut Ctx) {
     cx.check(
         "bp-vs-scan",
         RULE,
-        Budget { quick: 60_000, thorough: 1_500_000, max_len: 3000 },
+        Budget { quick: 80_000, thorough: 1_500_000, max_len: 3000 },
         |u, st| {
             let (b, shape) = bp::sequence(u, max_bits);
             let c = make_case(u, b, shape);
